@@ -19,10 +19,11 @@ import (
 
 // C18Forge is a forged-accept case.
 type C18Forge struct {
-	Forge      string `json:"forge"`                 // random-key other-hash sig-other-key sig-altered-counts server-root-key sig-over-other-hash
-	Control    bool   `json:"control"`               // control connection type instead of full
-	DataFirst  bool   `json:"data_first"`            // also send a tx notification right after the forged accept
-	DataBefore bool   `json:"data_before,omitempty"` // send a tx notification and an in-sync message before the forged accept
+	Forge       string `json:"forge"`                  // random-key other-hash sig-other-key sig-altered-counts server-root-key sig-over-other-hash
+	Control     bool   `json:"control"`                // control connection type instead of full
+	DataFirst   bool   `json:"data_first"`             // also send a tx notification right after the forged accept
+	DataBefore  bool   `json:"data_before,omitempty"`  // send a tx notification and an in-sync message before the forged accept
+	PendingCall bool   `json:"pending_call,omitempty"` // the application has a request queued when the forged accept arrives
 }
 
 func c18ForgeRun(fc *C18Forge) (*c16Violation, map[string]bool) {
@@ -64,6 +65,9 @@ func c18ForgeRun(fc *C18Forge) (*c16Violation, map[string]bool) {
 	if err != nil {
 		return &c16Violation{"C18/harness/client", err.Error()}, flags
 	}
+	if fc.PendingCall {
+		go func() { _, _ = tc.c.GetTx(srvQuietCtx(), *c16Tx(7).TxHash()) }()
+	}
 	// the connection must fail: Run returns an error, or the client closes the connection
 	failed := false
 	select {
@@ -90,6 +94,17 @@ func c18ForgeRun(fc *C18Forge) (*c16Violation, map[string]bool) {
 	}
 	if accepted {
 		return &c16Violation{"C18/forged-accept/accepted", fmt.Sprintf("a forged accept (%s, control=%v) left the client reporting the connection as accepted", fc.Forge, fc.Control)}, flags
+	}
+	if fc.PendingCall {
+		// the queued request must not be written to a connection whose accept was forged
+		time.Sleep(50 * time.Millisecond)
+		for _, sc := range srv.connections() {
+			for k, r := range sc.received() {
+				if typ := r.msg.Payload.Type(); !IsHandshakeType(typ) {
+					return &c16Violation{"C18/gate/request-before-handshake", fmt.Sprintf("connection %d with a forged accept (%s): message %d is a %s request written although the handshake never completed", sc.index, fc.Forge, k, NameForMessageType(typ))}, flags
+				}
+			}
+		}
 	}
 	if len(ev1)+len(ev2) > 0 {
 		return &c16Violation{"C18/forged-accept/data-reached-handlers", fmt.Sprintf("after a forged accept (%s) handlers received %d notifications (first: %s)", fc.Forge, len(ev1)+len(ev2), append(ev1, ev2...)[0].kind)}, flags
@@ -310,7 +325,7 @@ func c18GateRun(g *C18Gate) (*c16Violation, map[string]bool) {
 	return nil, flags
 }
 
-const c18Rule = "forged accepts (random key, key for another hash, signature by another key, by the root key, over another hash, counts altered after signing) for both connection types, optionally preceded or followed by data; gating plans (accept delay, ready delay, calls at generated times relative to connect/accept/ready, connection dropped or poisoned at a generated time); oracle: forged accept => not accepted, nothing reaches handlers, the connection fails; register validly signed with a fresh hash per connection; per connection only handshake-type messages before its handshake completed; a call that returned nil was written after a handshake; non-trivial = every forged case, and gating cases with a call issued while no handshake is complete; distinct by case hash"
+const c18Rule = "forged accepts (random key, key for another hash, signature by another key, by the root key, over another hash, counts altered after signing) for both connection types, optionally preceded or followed by data, or with an application request queued when the forged accept arrives; gating plans (accept delay, ready delay, calls at generated times relative to connect/accept/ready, connection dropped or poisoned at a generated time); oracle: forged accept => not accepted, nothing reaches handlers, the connection fails; register validly signed with a fresh hash per connection; per connection only handshake-type messages before its handshake completed; a call that returned nil was written after a handshake; non-trivial = every forged case, and gating cases with a call issued while no handshake is complete; distinct by case hash"
 
 func TestC18Forged(t *testing.T) {
 	rep := verifkit.NewReport("C18", "TestC18Forged", c18Rule)
@@ -342,6 +357,10 @@ func TestC18Forged(t *testing.T) {
 		for _, control := range []bool{false, true} {
 			for _, data := range []int{0, 1, 2} {
 				grid = append(grid, &C18Forge{Forge: forge, Control: control, DataFirst: data == 1, DataBefore: data == 2})
+			}
+			// with a request queued by the application (the tear-down is a race: three tries)
+			for k := 0; k < 3; k++ {
+				grid = append(grid, &C18Forge{Forge: forge, Control: control, PendingCall: true, DataFirst: k == 1})
 			}
 		}
 	}
